@@ -48,14 +48,14 @@ func Main(args []string) int {
 }
 
 type levelStat struct {
-	Bounds       Bounds `json:"bounds"`
-	Configs      int    `json:"configs"`
-	Jobs         int    `json:"jobs"`
-	Executions   int64  `json:"executions"`
-	Points       int64  `json:"scheduling_points"`
-	ChoicePoints int64  `json:"choice_points"`
-	MaxPoints    int    `json:"max_points_in_one_execution"`
-	Complete     bool   `json:"complete"`
+	Bounds       Bounds  `json:"bounds"`
+	Configs      int     `json:"configs"`
+	Jobs         int     `json:"jobs"`
+	Executions   int64   `json:"executions"`
+	Points       int64   `json:"scheduling_points"`
+	ChoicePoints int64   `json:"choice_points"`
+	MaxPoints    int     `json:"max_points_in_one_execution"`
+	Complete     bool    `json:"complete"`
 	WallS        float64 `json:"wall_s"`
 }
 
@@ -361,6 +361,7 @@ func checkC15() int {
 	if tier == "thorough" {
 		budget = 20 * time.Minute
 	}
+	budget = budgetOverride(budget)
 	Quiet()
 	fmt.Printf("C15 tier=%s: codec product space ...\n", tier)
 	codec := CheckCodec()
@@ -502,27 +503,28 @@ levels:
 	ev := &kernel.Evidence{
 		PropertyID: "C15", Tier: tier, Seed: seed, Level: "model_checking",
 		Coverage: map[string]interface{}{
-			"states":                        len(c.obs),
-			"transitions":                   c.totalPts,
-			"traces_validated_against_impl": c.totalEx,
-			"rule": "stateless deviation-bounded DFS over the schedules of the REAL rpc.Client (rewritten by /verif/tools/instr: every go/chan/select/lock/timer is a scheduling point of a cooperative scheduler, one thread runs at a time). A configuration = caller threads x operations x reply order of the scripted peer (every linear extension of the callers' program orders) x fault variant (none | at reply k the peer stalls / closes / sends a bad-magic header, either instead of reply k or immediately after reply k-1). Within a configuration every choice sequence with <= P non-default thread choices (preemptions, non-lowest-id continuation after a block, non-first ready select case) and <= T early timer firings (P+T <= total) is executed to quiescence (all armed timers fired). states = distinct (scenario, final observation) pairs, where the observation is every request's result class, poisoned flag, closeChan tokens, live client threads; transitions = scheduling points executed (all levels); traces_validated_against_impl = executions run on the real code (all levels; the levels are cumulative, executions_at_completed_bound counts the last completed level only).",
-			"samples":                     samples,
-			"exhaustive":                  exhaustive,
-			"preemption_bound_completed":  minP,
-			"timer_deviation_bound_completed": minT,
-			"executions":                  lastEx,
-			"executions_all_levels":       c.totalEx,
+			"states":                               len(c.obs),
+			"transitions":                          c.totalPts,
+			"traces_validated_against_impl":        c.totalEx,
+			"rule":                                 "stateless deviation-bounded DFS over the schedules of the REAL rpc.Client (rewritten by /verif/tools/instr: every go/chan/select/lock/timer is a scheduling point of a cooperative scheduler, one thread runs at a time). A configuration = caller threads x operations x reply order of the scripted peer (every linear extension of the callers' program orders) x fault variant (none | at reply k the peer stalls / closes / sends a bad-magic header, either instead of reply k or immediately after reply k-1). Within a configuration every choice sequence with <= P non-default thread choices (preemptions, non-lowest-id continuation after a block, non-first ready select case) and <= T early timer firings (P+T <= total) is executed to quiescence (all armed timers fired). states = distinct (scenario, final observation) pairs, where the observation is every request's result class, poisoned flag, closeChan tokens, live client threads; transitions = scheduling points executed (all levels); traces_validated_against_impl = executions run on the real code (all levels; the levels are cumulative, executions_at_completed_bound counts the last completed level only).",
+			"samples":                              samples,
+			"exhaustive":                           exhaustive,
+			"preemption_bound_completed":           minP,
+			"timer_deviation_bound_completed":      minT,
+			"executions":                           lastEx,
+			"executions_all_levels":                c.totalEx,
 			"scheduling_points_at_completed_bound": lastPts,
-			"distinct_outcomes":           len(c.obs),
-			"outcomes":                    obsCounts(c.obs, 60),
-			"permutations":                perms,
-			"fault_variants":              faultVars,
-			"scenarios":                   stats,
-			"codec_cases":                 codecCases,
-			"codec":                       codec,
-			"race_pass":                   race,
-			"gray_area_observations":      grayOut,
-			"known_findings_matched":      nKnown,
+			"distinct_outcomes":                    len(c.obs),
+			"outcomes":                             obsCounts(c.obs, 60),
+			"permutations":                         perms,
+			"fault_variants":                       faultVars,
+			"scenarios":                            stats,
+			"codec_cases":                          codecCases,
+			"codec":                                codec,
+			"race_pass":                            race,
+			"gray_area_observations":               grayOut,
+			"observations":                         observationList(grayOut),
+			"known_findings_matched":               nKnown,
 		},
 		Assumptions: []string{
 			"sequential consistency between scheduling points: code between two hooked operations (bufio, encoding/binary, logrus, journal bookkeeping, the in-memory connection) runs atomically; unsynchronised fields (Client.err in operation, Wire.readExit/writeExit in Close) get an explicit scheduling point before each access; the free-running -race pass lists the races this hides",
@@ -546,6 +548,62 @@ levels:
 		return 1
 	}
 	return 0
+}
+
+// budgetOverride: VERIF_ED_BUDGET_S=<seconds> replaces the internal exploration budget (used to test the early-stop path).
+func budgetOverride(d time.Duration) time.Duration {
+	if n, err := strconv.Atoi(os.Getenv("VERIF_ED_BUDGET_S")); err == nil && n > 0 {
+		return time.Duration(n) * time.Second
+	}
+	return d
+}
+
+var observationText = map[string]string{
+	"late-fail": "a request that has passed the c.err check, or sits in Client.requests, when Client.loop handles the transport error and exits is never failed by the client (loop returns without draining Client.requests); it returns only when its own 30/40 s deadline fires. It does return (no hang); whether that is 'promptly' is a matter of reading, so it is recorded, not judged",
+	"inflight-own-deadline-under-early-timer": "artefact of the explorer firing timers while a thread is runnable (starvation): the in-flight request's completion was delivered but the caller took the timeout branch; the registered-requests check at quiescence is the deciding oracle for such executions",
+	"failed-request-sent-as-error-frame":      "replyError rewrites in place a *Message that is still queued in Client.send (Type=TypeError, Data=error text); when the write goroutine had not yet sent it (it was not scheduled during the 2 s settle sleep, e.g. blocked in a stalled TCP write) it then puts a TypeError frame carrying the error text on the wire (with true parallelism the frame can be torn). A code defect, but not a clause of C15 (replies reach their requests, frames round-trip, pending/later requests fail promptly, failure is reported), hence an observation",
+	"client-thread-alive-after-poison":        "client goroutines still blocked at quiescence after the client was poisoned",
+	"horizon-inconclusive":                    "the fault happened too close to the virtual-time horizon to judge the report",
+}
+
+// observationList: one entry per class of observation (count, example, explanation) for coverage.observations.
+func observationList(g map[string]*grayAgg) []map[string]interface{} {
+	type cls struct {
+		n    int64
+		sigs []string
+		ex   *grayAgg
+		sig  string
+	}
+	m := map[string]*cls{}
+	for sig, a := range g {
+		k := strings.SplitN(sig, ":", 2)[0]
+		c := m[k]
+		if c == nil {
+			c = &cls{}
+			m[k] = c
+		}
+		c.n += a.Count
+		c.sigs = append(c.sigs, sig)
+		if c.ex == nil || len(a.Choices) < len(c.ex.Choices) || (len(a.Choices) == len(c.ex.Choices) && sig < c.sig) {
+			c.ex, c.sig = a, sig
+		}
+	}
+	ks := make([]string, 0, len(m))
+	for k := range m {
+		ks = append(ks, k)
+	}
+	sort.Strings(ks)
+	out := []map[string]interface{}{}
+	for _, k := range ks {
+		c := m[k]
+		sort.Strings(c.sigs)
+		out = append(out, map[string]interface{}{
+			"class": k, "executions": c.n, "signatures": c.sigs, "counted_as_violation": false,
+			"example_signature": c.sig, "example_config": c.ex.Config, "example_replay": c.ex.Replay, "example_note": c.ex.Note,
+			"explanation": observationText[k],
+		})
+	}
+	return out
 }
 
 // printGray prints one line per class of gray-area observation (the evidence file has every signature).
@@ -716,6 +774,7 @@ func checkSimple(prop, harness, evName string) int {
 	if tier == "thorough" {
 		budget = 10 * time.Minute
 	}
+	budget = budgetOverride(budget)
 	Quiet()
 	c := newCampaign(prop, budget)
 	defer c.pool.close()
@@ -812,6 +871,7 @@ func checkSimple(prop, harness, evName string) int {
 			"configurations":                len(jobs),
 			"levels":                        stats,
 			"gray_area_observations":        grayOut,
+			"observations":                  observationList(grayOut),
 			"known_findings_matched":        nKnown,
 			"race_pass":                     race,
 		},
